@@ -108,6 +108,8 @@ def native_eval(group, kind, api, flags, cap, data, nat):
         return ['implementation ' + st] if group in ('safety', 'ref', 'ref_err') else []
     if group in ('ref', 'ref_err'): return native_ref_mismatch(nat, kind, only_err=(group == 'ref_err'))
     if group == 'safety': return []
+    if group == 'alloc':
+        return [f"{imp.get('allocs')} heap allocation(s) during the parse call"] if imp.get('allocs') else []
     n = imp.get('n', 0)
 
     def sl(t):
@@ -261,6 +263,20 @@ def rel_gate(v):
                 if (ia['status'], ia['n']) != (ib['status'], ib['n']): bad = f"capacity {c}: {ia['status']} n={ia['n']}; capacity 3: {ib['status']} n={ib['n']}"
                 elif ia['status'] == 'C' and ia['headers'] != ib['headers']: bad = 'headers differ between capacities'
             if bad: confirmed = True; notes.append(f'{prof}: {bad}')
+    elif rel == 'build':
+        # re-run the failing no_std build once more, serially
+        from .props import c19
+        import subprocess, os
+        r = v['combo']
+        with build.Scratch() as sd:
+            env = build.base_env()
+            if r['target_feature'] != '-': env['RUSTFLAGS'] = '-C target-feature=' + r['target_feature']
+            if r['disable_simd_compiletime']: env['CARGO_CFG_HTTPARSE_DISABLE_SIMD_COMPILETIME'] = '1'
+            if r['disable_simd']: env['CARGO_CFG_HTTPARSE_DISABLE_SIMD'] = '1'
+            p = subprocess.run(['cargo', 'check', '--offline', '--lib', '--no-default-features', '--target-dir', os.path.join(sd, 't')], cwd=build.REPO, env=env,
+                               stdout=subprocess.PIPE, stderr=subprocess.PIPE)
+            natives['build'] = p.returncode
+            if p.returncode != 0: confirmed = True; notes.append('no_std build fails again: ' + p.stderr.decode()[-300:])
     elif rel == 'completable':
         entry = en(kind, v['api'])
         for prof in profs:
